@@ -643,7 +643,7 @@ func shapeKey(sc *scenario) string {
 		} else if s.Kind == "retry" && s.Schema == nil {
 			sb.WriteString("|T")
 		} else {
-			sb.WriteString("|" + strings.ToUpper(s.Kind[:1]) + "s")
+			sb.WriteString("|" + s.Kind[:2])
 			for _, d := range s.Schema.Docs {
 				fmt.Fprintf(&sb, ":%s", d.Name)
 				if d.Singleton {
